@@ -1,0 +1,26 @@
+//go:build verif
+
+package client
+
+import (
+	"context"
+
+	"github.com/ipfs/boxo/bitswap/client/internal/getter"
+	"github.com/ipfs/boxo/bitswap/client/internal/notifications"
+	blocks "github.com/ipfs/go-block-format"
+	"github.com/ipfs/go-cid"
+)
+
+// Bridge for the external verification harness (C37): the getter and the
+// block notifications live in internal packages.
+type VerifPubSub = notifications.PubSub
+
+// VerifNewPubSub is notifications.New(false).
+func VerifNewPubSub() VerifPubSub { return notifications.New(false) }
+
+// VerifAsyncGetBlocks is getter.AsyncGetBlocks.
+func VerifAsyncGetBlocks(ctx, sessctx context.Context, keys []cid.Cid, notif VerifPubSub,
+	want func(context.Context, []cid.Cid), cwants func([]cid.Cid),
+) (<-chan blocks.Block, error) {
+	return getter.AsyncGetBlocks(ctx, sessctx, keys, notif, want, cwants)
+}
